@@ -29,6 +29,10 @@ func (sim) Props() []string { return []string{"C03", "C04", "C05", "C08"} }
 // (entries with status "known") and VERIF_ADDRSIM_SKIP="C05=sig,sig;C03=sig".
 var skipSigs = loadSkips()
 
+// skipAlways (VERIF_ADDRSIM_SKIPALL=1, development only) looks beyond the
+// listed signatures in every run instead of three out of four.
+var skipAlways = os.Getenv("VERIF_ADDRSIM_SKIPALL") == "1"
+
 func loadSkips() map[string][]string {
 	out := map[string][]string{}
 	root := os.Getenv("VERIF_ROOT")
@@ -117,7 +121,7 @@ func (sim) Generate(prop, tier string, seed uint64) *core.Plan {
 	// does not depend on the list)
 	sr := core.NewRand(core.Mix(seed, 77))
 	for _, s := range skipSigs[prop] {
-		if sr.Intn(4) != 0 {
+		if sr.Intn(4) != 0 || skipAlways {
 			p.Cfg["skip:"+s] = 1
 		}
 	}
